@@ -32,6 +32,7 @@ type PlzResult struct {
 	TimedOut       bool
 	Dur            time.Duration
 	Pid            int
+	Watchdog       string // what OnTimeout reported
 }
 
 // DefaultPlzConfig is the .plzconfig every generated repository starts from.
@@ -53,6 +54,9 @@ type PlzCmd struct {
 	Timeout  time.Duration
 	Home     string // HOME to use (defaults to <Dir>/../home, created if needed)
 	Stdin    string
+	// OnTimeout, if set, is called with the pid when the watchdog fires, before the process group is killed
+	// (e.g. to sample CPU progress and request a goroutine dump). Its result is stored in PlzResult.Watchdog.
+	OnTimeout func(pid int) string
 }
 
 // BaseEnv is the fixed, minimal environment plz runs under (so that the invoking shell cannot leak in).
@@ -87,8 +91,11 @@ func (c PlzCmd) Run() PlzResult {
 		cmd.Env = append(BaseEnv(home), c.Env...)
 	}
 	cmd.SysProcAttr = &syscall.SysProcAttr{Setpgid: true}
+	watchdog := ""
 	cmd.Cancel = func() error {
-		// SIGQUIT first would give a goroutine dump; keep it simple: kill the whole group.
+		if c.OnTimeout != nil {
+			watchdog = c.OnTimeout(cmd.Process.Pid)
+		}
 		return syscall.Kill(-cmd.Process.Pid, syscall.SIGKILL)
 	}
 	var so, se bytes.Buffer
@@ -104,6 +111,7 @@ func (c PlzCmd) Run() PlzResult {
 	}
 	if ctx.Err() != nil {
 		res.TimedOut = true
+		res.Watchdog = watchdog
 	}
 	if err != nil {
 		if ee, ok := err.(*exec.ExitError); ok {
